@@ -239,8 +239,9 @@ theorem C16_relay_payload_unchanged (a : Agent) (k : Kind) (peer id : Nat) (payl
 /-- … and a frame no relay entry claims is handled by the exit handler alone (the relay tables are
     untouched). -/
 theorem C16_unclaimed_frame_leaves_relay_untouched (n : Node) (peer id serial : Nat)
-    (h : n.a.tcp.route peer id = none) : (n.data peer id serial).1.a = n.a := by
-  simp [Node.data, h]
+    (h : n.a.tcp.route peer id = none) (payload : String) (fin : Bool) :
+    (n.data peer id serial payload fin).1.a = n.a := by
+  simp only [Node.data, h]
 
 /-- `Distinct`: no two records of one agent share a bare stream id in the same index. -/
 def Distinct (es : List Entry) : Prop := es.Pairwise (fun a b => a.upId ≠ b.upId ∧ a.downId ≠ b.downId)
